@@ -244,10 +244,15 @@ func vC08Renamed(env *Zlisp, name string, c vC08Canary, label string) {
 	s := func(n string) Sexp { return env.MakeSymbol(n) }
 	touch := &SexpStr{S: c.touchFile}
 	var args []Sexp
-	if vChoice("rargs", 2) == 0 {
+	switch vChoice("rargs", 4) {
+	case 0:
 		args = []Sexp{vL(s("hash"), vL(s("quote"), s("k")), vI(1)), touch}
-	} else {
+	case 1:
 		args = []Sexp{touch}
+	case 2:
+		args = []Sexp{&SexpStr{S: c.secretFile}}
+	default:
+		args = []Sexp{&SexpStr{S: "touch " + c.touchFile}}
 	}
 	forms := []Sexp{
 		vL(s("def"), s(m), s(name)),
